@@ -72,6 +72,23 @@ def gen(rng, tier):
     for _ in range(400 * n):
         vs = [common.rand_any(rng, 70) for _ in range(3)]
         yield dict(family="random", vars=vs, ops=OPS3)
+    # same leading word(s), lower words at the extremes of the word range (differences >= 2^63 between unsigned words)
+    EXT = [0, 1, 2**63 - 1, 2**63, 2**63 + 1, B - 1, B - 2, 5 * 10**18, 9223372036854775808 - 10**18, 10**18]
+    for _ in range(250 * n):
+        k = rng.randint(1, 3)                       # number of lower words
+        top = [rng.randrange(B // 10, B) for _ in range(rng.randint(1, 2))]
+        def mk():
+            low = [rng.choice(EXT) if rng.random() < 0.8 else rng.randrange(B) for _ in range(k)]
+            n_ = 0
+            for w in top + low:
+                n_ = n_ * B + w
+            return n_
+        e = common.rand_exp(rng, wide=False)
+        neg = rng.randint(0, 1)
+        vs = [fin(mk(), e, neg=neg, pad=rng.choice([0, 0, 1])) for _ in range(3)]
+        if rng.random() < 0.3:
+            vs[2] = fin(mk(), e, neg=1 - neg)
+        yield dict(family="word-extremes", vars=vs, ops=OPS3)
 
 
 def value(v):
